@@ -705,6 +705,11 @@ pub fn run_job(job: &Value) -> Value {
             Ok(v) => v,
             Err(e) => {
                 let msg = e.downcast_ref::<String>().cloned().or_else(|| e.downcast_ref::<&str>().map(|s| s.to_string())).unwrap_or_else(|| "panic".to_owned());
+                if msg.starts_with("harness: no ") {
+                    // refers to a slot whose constructor was refused earlier in the job
+                    results.push(json!({ "skip": msg }));
+                    continue;
+                }
                 if msg.starts_with("harness:") {
                     eprintln!("harness error in job {}: {} (call {})", job["id"], msg, c);
                     std::process::exit(4);
